@@ -487,6 +487,76 @@ def large_batch_stream(env, pool):
     return False
 
 
+def gen_long_case(rng, fmt):
+    """class `long lines`: n-grams whose text is around or beyond 2^16 bytes (65535, 65536, 65537, ~70 k, > 2^17), a few dozen
+    lines per section, so that every per-line length or offset the threaded path keeps (InputBuffer copies each line and
+    remembers where its n-gram sits) crosses 16 bits; threads:1 takes no copy and is the reference."""
+    lens = [65535, 65536, 65537, rng.randrange(65538, 72000), 131072 + rng.randrange(1, 50)]
+    longs = [bytes([97 + i]) * 3 + b"x" * (L - 3) for i, L in enumerate(lens)]       # distinct first bytes
+    short = [b"a", b"b", b"c", b"de", b"fg"]
+    words = short + longs
+    n = rng.randrange(12, 40)
+    def bigram():
+        r = rng.random()
+        if r < 0.4:
+            return rng.choice(short) + b" " + rng.choice(short)
+        if r < 0.7:
+            return rng.choice(longs) + b" " + rng.choice(short)
+        if r < 0.9:
+            return rng.choice(short) + b" " + rng.choice(longs)
+        return rng.choice(longs) + b" " + rng.choice(longs)
+    if fmt == "raw":
+        lines = [bigram() + b"\t%d" % rng.randrange(1, 100) for _ in range(n)]
+        case = dict(fmt="raw", model=b"\n".join(lines) + b"\n")
+    else:
+        uni = [b"-1.0\t" + w + b"\t-0.5" for w in words]
+        big = [b"-%d.%d\t" % (rng.randrange(1, 5), rng.randrange(10)) + bigram() for _ in range(n)]
+        model = (b"\\data\\\nngram 1=%d\nngram 2=%d\n\n\\1-grams:\n" % (len(uni), n) + b"\n".join(uni) + b"\n\n\\2-grams:\n" +
+                 b"\n".join(big) + b"\n\n\\end\\\n")
+        case = dict(fmt="arpa", model=model, orders=[uni, big])
+    mode = rng.choice(["single", "union", "multiple"])
+    case["mode"] = mode
+    case["context"] = False
+    keep = [rng.choice(longs), rng.choice(longs)]
+    if mode == "single":
+        case["vocab"] = b" ".join([b"a", b"b", b"de"] + keep) + b"\n"
+    else:
+        case["vocab"] = b"a b " + keep[0] + b" de\n" + b"b c fg " + keep[1] + b"\n"
+    return case
+
+
+def long_line_stream(env, pool):
+    """class `long lines` (see gen_long_case): threaded runs against threads:1"""
+    ctx = env.ctx
+    fmts = ["raw", "arpa"] if ctx.tier == "quick" else ["raw", "arpa", "raw", "arpa"]
+    for fmt in fmts:
+        case = gen_long_case(ctx.rng, fmt)
+        multiple = case["mode"] == "multiple"
+        vp, mp = env.paths(case["vocab"], case["model"])
+        case["vp"], case["mp"] = vp, mp
+        st1, ref, cmd1 = run_config(env, case, 1, 1, "llref", timeout=120)
+        if st1 != "ok":
+            ctx.violation("threads:1 run failed (%s) on the long-line input" % st1, {"cmd": cmd1})
+            return True
+        for t, b in [(ctx.rng.choice([2, 3]), ctx.rng.choice([1, 4])), (2, 25000)]:
+            st, files, cmd = run_config(env, case, t, b, "long", timeout=120)
+            d = classify(ref, st, files, multiple)
+            nl = case["model"].count(b"\n")
+            ctx.count(("long", fmt, case["mode"], t, b, nl), nontrivial=True)
+            ctx.hist("long_lines", "%s %s t=%d b=%d" % (fmt, case["mode"], t, b))
+            ctx.hist("status", st if d is None else ("VIOLATION:" + (d if d in ("hang", "crash", "error") else "diff")))
+            if d is not None:
+                ctx.violation(
+                    "threaded filter differs from threads:1 (%s) on lines longer than 2^16 bytes with %s %s threads:%d batch_size:%d" % (
+                        d, case["mode"], fmt, t, b),
+                    {"stream": "filter-threads/long-lines", "replay_cmd": " ".join(cmd) + " < MODEL  # compare with threads:1",
+                     "status": st, "difference": d, "lines": nl,
+                     "line_lengths": sorted(set(len(l) for l in case["model"].split(b"\n")))[-8:],
+                     "generator": "checks/C12.py gen_long_case(fmt=%r) at VERIF_SEED=%d" % (fmt, ctx.seed)})
+                return True
+    return False
+
+
 def run(ctx):
     problems, consts = flow.proof_phase(ctx, "C12", required=REQUIRED, drivers=["drv_C12"])
     ok, bdir, lg = repo.build("tools", targets=["filter", "query"])
@@ -526,6 +596,8 @@ def run(ctx):
                 found = True
         # 2b. large batches of short lines (InputBuffer must never reallocate)
         if env.found < 6 and large_batch_stream(env, pool):
+            found = True
+        if env.found < 6 and long_line_stream(env, pool):
             found = True
         # 3. perturbed schedules of the real pipeline (hooks at the PCQueue / ThreadPool scheduling points)
         if env.found < 6:
